@@ -5,7 +5,11 @@ patch="$1"; pid="$2"; tier="${3:-quick}"
 cd /repo || exit 2
 if [ -n "$(git status --porcelain)" ]; then echo "/repo dirty, refusing"; exit 2; fi
 git apply "$patch" || { echo "patch does not apply"; exit 2; }
+# evidence written while /repo is patched must not replace the evidence of the real tree
+cp /verif/evidence/$pid.json /var/tmp/evidence.$pid.$$ 2>/dev/null
 ( cd /verif && ./check "$pid" --tier "$tier" 2>&1 | tail -4 )
 rc=$?
+[ -f /var/tmp/evidence.$pid.$$ ] && mv /var/tmp/evidence.$pid.$$ /verif/evidence/$pid.json
 git -C /repo checkout -- . ; git -C /repo clean -fdq src 2>/dev/null
+( cd /verif && /venv/bin/python harness/extract.py >/dev/null 2>&1 )   # regenerate Generated/*.lean from the restored tree
 exit $rc
